@@ -16,7 +16,7 @@ PROP = "C17"
 LEVEL = "fault_enumeration"
 ENGINE = "EP"
 N = {"quick": 2500, "thorough": 160000}
-TIME = {"quick": 40, "thorough": 420}
+TIME = {"quick": 300, "thorough": 420}
 RULE = ("Episodes over continuous (Box) and discrete portfolio spaces, contract lists with or without the cash contract (shuffled), "
         "weights or number-of-contract mode, bounds {(0,1),(-1,1),(-0.5,2)}, delays 0-2. One malformed action of every kind "
         "{above upper bound, below lower bound, one element out of bounds, length+1, length-1, NaN, inf, 2-D, None, string; index -1, "
